@@ -574,6 +574,22 @@ func runTarget(p *Loaded, t Target, selRet int) (res *TargetResult) {
 			x.obls = append(x.obls, &Obligation{Name: fn + "#V:body:" + key, Class: "V", Func: fn, Label: "body:" + key, PC: True(), Goal: False(), NHyp: 0, Vacuous: true})
 		}
 	}
+	// vacuity guard for call clauses: a clause about the calls of a callee that no path reaches
+	// (callee renamed, call removed, clause misspelt) asserts nothing
+	if res.Err == "" && selRet == 0 && t.Spec != nil {
+		var ks []string
+		for callee, cls := range t.Spec.Calls {
+			for _, c := range cls {
+				if !x.callSeen[callee+"."+c.Label] {
+					ks = append(ks, callee+"."+c.Label)
+				}
+			}
+		}
+		sort.Strings(ks)
+		for _, k := range ks {
+			x.obls = append(x.obls, &Obligation{Name: t.Name + "#V:call-reached:" + k, Class: "V", Func: t.Name, Label: "call-reached:" + k, PC: True(), Goal: False(), NHyp: 0, Vacuous: true})
+		}
+	}
 	// vacuity guard: the end of the harness must be reachable under all assumptions made on the
 	// way (requires, callee postconditions, invariants).  "false" must NOT be provable there.
 	if selRet == 0 && x.st != nil && res.Err == "" {
